@@ -48,6 +48,9 @@ func (f *Formatter) formatExpression(expr ast.Expression) *ChunkBuffer {
 		buf.Append(f.formatGroupedExpression(t))
 	case *ast.InfixExpression:
 		buf.Append(f.formatInfixExpression(t))
+	case *ast.PostfixExpression:
+		// like "50%"
+		buf.Write(f.formatExpression(t.Left).String()+t.Operator, Token)
 	}
 
 	// trailing comment
